@@ -383,10 +383,10 @@ def gen_problem(rng, zones=None, names=None):
 def vu_wrap(p):
     q = copy.deepcopy(p)
     for s in q["streams"]:
-        for k, u in (("t_supply", "degC"), ("t_target", "degC"), ("heat_flow", "kW"), ("dt_cont", "degC"), ("htc", "kW/m^2/degC")):
+        for k, u in (("t_supply", "degC"), ("t_target", "degC"), ("heat_flow", "kW"), ("dt_cont", "K"), ("htc", "kW/m^2/degC")):
             s[k] = dict(value=s[k], units=u)
     for s in q["utilities"]:
-        for k, u in (("t_supply", "degC"), ("t_target", "degC"), ("dt_cont", "degC"), ("htc", "kW/m^2/degC"), ("price", "$/MWh")):
+        for k, u in (("t_supply", "degC"), ("t_target", "degC"), ("dt_cont", "K"), ("htc", "kW/m^2/degC"), ("price", "$/MWh")):
             s[k] = dict(value=s[k], units=u)
     return q
 
@@ -623,6 +623,9 @@ def channels_suite(ctx):
     items = [(p_d8, None, True)] + [(gen_problem(rng), None, True) for _ in range(n)]
     opts_pool = [dict(DO_VERTICAL_GCC=True), dict(DO_ASSITED_HT=True, DO_BALANCED_CC=False), dict(DO_DIRECT_OPERATION_TARGETING=True), dict(DT_CONT=10.0)]
     items += [(gen_problem(rng), rng.choice(opts_pool), False) for _ in range(ctx.budget(6, 60))]
+    # option values that are legal and falsy (0, 0.0, False) must travel through every channel like any other value
+    items += [(p_d8, dict(DT_CONT=0.0), False), (p_d8, dict(DO_BALANCED_CC=False, DO_VERTICAL_GCC=False), False),
+              (dict(p_d8, utilities=[]), dict(UTILITY_PRICE=0), False), (gen_problem(rng), dict(DT_CONT=0.0, DT_PHASE_CHANGE=0.5), False)]
     res = judge_problem_channels(ctx, items, "channels")
     agree = bad = 0
     reported = {}
